@@ -146,8 +146,12 @@ CHECKS = {
             "in a small scope: TLC proves the lexicographic variant, the work bound and agreement with RFC 1035 4.1.4 for every "
             "buffer of <= 4/5 octets over an alphabet of pointers, reserved forms and label lengths at every offset, and the real "
             "Name::read is run on every one of those inputs. Totality of the ~35 RDATA decoders, Message, the server-side "
-            "Request and Record on arbitrary bytes is explored: seeded mutation of valid messages of 30 RDATA types, random "
-            "bytes and adversarial 64 KiB packets under catch_unwind and a watchdog, every call judged by Trace_Wire.",
+            "Request and Record is covered twice: (1) the wire grammar of 41 record types is a TLA+ table (GrammarOps: fields, "
+            "boundary variants of every field, EDNS options, SVCB parameters, bit maps, with the grammar's well-formedness verdict) "
+            "that TLC unfolds into every variant x every message context (opcode x section x class x RDLENGTH policy x position) "
+            "plus the item lists of the model-checked loop machine TlvLoop; a table-free driver serialises them and Trace_Grammar "
+            "judges panic / hang / CPU budget / limits for four entry points; (2) seeded mutation of valid messages of 30 RDATA "
+            "types, random bytes and adversarial 64 KiB packets under catch_unwind and a watchdog, judged by Trace_Wire.",
             "Outside the exhaustive scope the claim is exploration-level (sampled inputs; the oracle is 'ok or err, within "
             "bounds, limits respected, within the time budget'); memory consumption is not judged; whether valid names decode "
             "to the right labels is judged by C02.",
@@ -162,7 +166,10 @@ CHECKS = {
             "evaluates DecodeName on the encoded bytes (prior, complete, case-exact); header counts, OPT/TSIG placement, RCODE "
             "split and absence of trailing bytes are judged from the walker's output; decode(encode(m)) = m; accepted byte "
             "strings (valid and mutated) are re-encoded and re-decoded and RDATA of non-compressible types compared byte for "
-            "byte. Every valid (buffer, offset) of the exhaustive small scope must decode to exactly the specified labels.",
+            "byte. Every valid (buffer, offset) of the exhaustive small scope must decode to exactly the specified labels. The "
+            "record grammar GrammarOps (41 types, every field variant, every message context, TlvLoop item lists) adds: a record the "
+            "grammar calls well-formed in its context is accepted by Message, Request, Record::read (stopping exactly behind it) "
+            "and RData::read, survives decode+encode octet for octet, and whatever is accepted re-encodes to a fixpoint.",
             "Value equality is hickory's PartialEq (+ case-exact owner names); field-value fidelity of each RDATA type is exercised "
             "by corpus values, not decided by TLC; names inside RDATA are covered through message equality, not through the layout "
             "oracle.",
@@ -277,7 +284,7 @@ ENGINES = [
     {"name": "mux", "path": "spec/Mux.tla", "serves_properties": ["C16"],
      "kind_free_text": "TLA+ spec (UdpMatchOps, UdpMatch, Mux, MC_/Gen_/Trace_UdpMatch, Gen_UdpRetx, MC_/Gen_/Trace_Mux) + harness/src/bin/drive_c16/"},
     {"name": "wire", "path": "spec/WireName.tla", "serves_properties": ["C01", "C02"],
-     "kind_free_text": "TLA+ spec (WireNameOps, WireName, MC_WireName, Gen_WireName, Trace_Wire, Trace_RoundTrip) + harness/src/bin/drive_wire.rs"},
+     "kind_free_text": "TLA+ spec (WireNameOps, WireName, MC_WireName, Gen_WireName, Trace_Wire, Trace_RoundTrip, GrammarOps, TlvLoop, MC_TlvLoop, Gen_Grammar, Trace_Grammar) + harness/src/bin/drive_wire.rs"},
     {"name": "update", "path": "spec/Update.tla", "serves_properties": ["C12", "C14"],
      "kind_free_text": "TLA+ spec (Serial, UpdateOps, Update, JournalOps, Journal, MC_/Gen_/Trace_Update, MC_/Gen_/Trace_Journal) + harness/src/bin/drive_update.rs"},
     {"name": "canonical", "path": "spec/Canonical.tla", "serves_properties": ["C05"],
